@@ -500,4 +500,45 @@ theorem addConfig_spec (st : St) (h : Nat) (c : Conf) (toc : Toc) (ms : Int)
     · intro he; cases he
     · intro _; exact ⟨rfl, rfl, _, conf_setConf_self hc, e2, e3⟩
 
+/-! ## legacy protocol (V1) and LogVariable construction -/
+
+def encV1 (toc : Toc) (v : LVar) : List UInt8 := [UInt8.ofNat (typeByte v), UInt8.ofNat (identOf toc v)]
+
+theorem fill_v1 (toc : Toc) : ∀ (vs : List LVar) (data : List UInt8), (∀ v ∈ vs, GoodVar toc v ∧ identOf toc v < 256) →
+    fill (some toc) false data vs = .ok (data ++ vs.flatMap (encV1 toc), none) := by
+  intro vs
+  induction vs with
+  | nil => intro data _; simp [fill]
+  | cons v vs ih =>
+    intro data hg
+    obtain ⟨g, hlt⟩ := hg v (by simp)
+    have h1 := g.1
+    have h2 := g.tb_lt
+    have h3 := g.elementId
+    simp only [fill, h1, h2, h3, hlt, Bool.not_true, Bool.false_eq_true, if_false, if_true]
+    rw [ih _ (fun w hw => hg w (by simp [hw]))]
+    simp [encV1, List.flatMap_cons]
+
+theorem mkVar_wf {n : Nat} {f s : String} {b : Bool} {a : Nat} {v : LVar} (h : mkVar n f b s a = .ok v) :
+    (typeRow? v.fetch).isSome = true ∧ (typeRow? v.stored).isSome = true := by
+  have key : ∀ (x : String) (t : Nat), idFromCString x = .ok t → (typeRow? t).isSome = true := by
+    intro x t hx
+    unfold idFromCString at hx
+    split at hx
+    · rename_i e he
+      cases hx
+      unfold typeRow?
+      rw [List.find?_isSome]
+      exact ⟨e, List.mem_of_find?_eq_some he, by simp⟩
+    · cases hx
+  unfold mkVar at h
+  split at h
+  · cases h
+  · rename_i t ht
+    split at h
+    · cases h; exact ⟨key _ _ ht, key _ _ ht⟩
+    · split at h
+      · cases h
+      · rename_i t2 ht2; cases h; exact ⟨key _ _ ht, key _ _ ht2⟩
+
 end CfVerif.C05
